@@ -147,6 +147,31 @@ theorem endBlock_complete {s : St} (fails : List (Nat × Nat)) (hi : FinInv s) {
     simp only [Option.map_some, Option.some.injEq, finPart, Prod.mk.injEq] at this
     exact ⟨r2, rfl, by rw [this.1]; exact hs1⟩
 
+/-- a state that gets finalized by `EndBlock` had its dispute period elapsed at this block, and the
+    recorded finalization height is this block's height -/
+theorem endBlock_newly {s : St} (fails : List (Nat × Nat)) (hi : FinInv s) {r r' : Rollapp} (hr : r ∈ s.ras)
+    {i : Nat} {st st' : SInfo} (hst : r.states[i]? = some st) (hnf : st.finalized = false)
+    (hg' : getRa (endBlock s fails) r.id = some r') (hst' : r'.states[i]? = some st') (hf : st'.finalized = true) :
+    st.creationHeight + s.p.dispute ≤ s.h ∧ st' = { st with finalized := true, finalizedAt := s.h } := by
+  obtain ⟨hi1, _⟩ := finalizeRollappStates_fin fails hi
+  obtain ⟨hh, hp, hrel⟩ := finalizeRollappStates_rel fails hi.nodup
+  obtain ⟨r1, hr1, hid, _, hs1⟩ := hrel r hr
+  have hg1 : getRa (finalizeRollappStates s fails) r.id = some r1 := by
+    rw [← hid]; exact getRa_of_mem hi1.nodup hr1
+  have := checkLiveness_finPart (finalizeRollappStates s fails) r.id
+  unfold endBlock at hg'
+  rw [hg', hg1] at this
+  simp only [Option.map_some, Option.some.injEq, finPart, Prod.mk.injEq] at this
+  rw [this.1] at hst'
+  obtain ⟨st1, hst1, hc⟩ := hs1 i st hst
+  rw [hst1] at hst'; injection hst' with hst'; subst hst'
+  rcases hc with hc | ⟨_, hc⟩
+  · subst hc; rw [hnf] at hf; cases hf
+  · refine ⟨?_, hc⟩
+    have := (hi1.ras r1 hr1).notEarly st1 (List.mem_of_getElem? hst1) hf
+    rw [hc, hp] at this
+    exact this
+
 -- ---------------------------------------------------------------- isolation
 
 /-- `finalizePendingState` on a record -/
